@@ -106,6 +106,9 @@ class PipeCore(object):
             if f == 'blocking':
                 import errno
                 raise BlockingIOError(errno.EAGAIN, 'injected EAGAIN at call %d (%s): the transport would block' % (k, kind))
+            if f == 'eintr':
+                import errno
+                raise InterruptedError(errno.EINTR, 'injected EINTR at call %d (%s): interrupted system call, nothing was transferred' % (k, kind))
             if f == 'epipe':
                 import errno
                 raise BrokenPipeError(errno.EPIPE, 'injected broken pipe at call %d (%s)' % (k, kind))     # what a socket raises once the peer has gone away
